@@ -87,6 +87,25 @@ pub fn enumerated() -> Vec<String> {
     ] {
         out.push(f.to_string());
     }
+    // (e') every FEN field filled from the characters its own grammar mentions, one field at a time
+    {
+        let good = ["rnbqkbnr/pppppppp/8/8/8/8/PPPPPPPP/RNBQKBNR", "w", "KQkq", "-", "0", "1"];
+        let alphabet: [&[&str]; 6] = [
+            &["|", "/", "8", "k", "K", "kK", "8/8", "////////", "1p6", "p1p1p1p1p", "0", "9"],
+            &["|", "-", "W", "B", "wb", "bw", "ww", "", "w|b", "b|w", "[", "]"],
+            &["|", "||||", "K|Q", "KQkq|", "kqKQ", "KKKK", "KQkqK", "k", "Q", "QK", "-K", "K-", "--", "AHah"],
+            &["|", "--", "e", "3", "e0", "e9", "i3", "a1", "h8", "e3e4", "-e3", "E3"],
+            &["|", "-", "-0", "+0", "00", "1.0", "1e1", "ff", "", "4294967296", "18446744073709551616"],
+            &["|", "-", "0", "-1", "+1", "00", "", "4294967296", "18446744073709551616"],
+        ];
+        for (i, alts) in alphabet.iter().enumerate() {
+            for a in alts.iter() {
+                let mut f: Vec<&str> = good.to_vec();
+                f[i] = a;
+                out.push(format!("position fen {}", f.join(" ")));
+            }
+        }
+    }
     // (d) numeric abuse
     for n in ["-1", "0", "+5", "2147483647", "2147483648", "4294967296", "18446744073709551615", "18446744073709551616", "1e9", "0x10", "１", "", " ", "99999999999999999999999999999999999999", "-0", "3.5"] {
         out.push(format!("go depth {}", n));
